@@ -87,6 +87,7 @@ func (e *Env) eval(ex *Expr) Value {
 		if v, ok := e.names[ex.Name]; ok {
 			return v
 		}
+		e.x.evalState = e.st
 		if v, ok := e.x.globalConst(ex.Name); ok {
 			return v
 		}
@@ -734,6 +735,8 @@ type specDef struct {
 	mapIx    map[string]bool
 	building bool
 	pass     int
+
+	heapFormals []heapFormal
 }
 
 const specInlineDepth = 80
